@@ -169,6 +169,14 @@ WitnessOf(t) ==
       [] t.k = "tup"  -> L([i \in 1..Len(t.ts) |-> WitnessOf(t.ts[i])])
       [] OTHER        -> DefaultOf(t)
 
+\* the conversion function of generated `savefile_versions_as` fields (harness: vcommon::conv_mv)
+RECURSIVE Conv(_, _)
+Conv(old, newt) ==
+    CASE newt.k = "p"   -> B([i \in 1..PrimWidth(newt.s) |-> IF i <= Len(old.bs) THEN old.bs[i] ELSE 0])
+      [] newt.k = "opt" -> Some(Conv(old, newt.ts[1]))
+      [] newt.k = "vec" -> L(<<Conv(old, newt.ts[1])>>)
+      [] OTHER          -> old
+
 FieldDefault(t, i) ==
     IF t.fa[i].rm # "no" THEN Unit
     ELSE IF t.fa[i].df = "default" THEN DefaultOf(t.ts[i]) ELSE WitnessOf(t.ts[i])
@@ -328,7 +336,7 @@ DecFields(t, i, inp, pos, ver, acc, reads, dummy) ==
               \* versions_as: read the OLD type, convert
               LET r == Dec(a.asty, inp, pos, ver) IN
               IF ~r.ok THEN Fail(r.pos, r.err, reads \o r.reads)
-              ELSE DecFields(t, i + 1, inp, r.pos, ver, Append(acc, V("conv", 0, <<>>, <<r.v>>)), reads \o r.reads, dummy)
+              ELSE DecFields(t, i + 1, inp, r.pos, ver, Append(acc, Conv(r.v, t.ts[i])), reads \o r.reads, dummy)
          ELSE IF a.from <= ver /\ ver <= a.to THEN
               LET r == Dec(t.ts[i], inp, pos, ver) IN
               IF ~r.ok THEN Fail(r.pos, r.err, reads \o r.reads)
